@@ -51,6 +51,7 @@ def run_case(spec):
     pspec = {"hier": spec["hier"], "methods": spec["methods"], "host": spec["host"]}
     prog = Program(pspec, env=env)
     fresh = {}
+    _fresh_cycle = {}
     try:
         seen_fail = False
         seen_nested = False
@@ -61,16 +62,20 @@ def run_case(spec):
             if idx not in fresh:
                 p2 = Program(pspec, env=env)
                 try:
-                    fresh[idx], _ = observe(p2, call, env)
+                    fresh[idx], fo = observe(p2, call, env)
+                    _fresh_cycle[idx] = "CycleError" in fo.detail
                 finally:
                     p2.close()
             got, out = observe(prog, call, env)
             if got != fresh[idx]:
+                from vlib.outcome import F5_CYCLE
+
+                cyc = "CycleError" in out.detail or got[0] == "other" or fresh[idx][0] == "other"
                 res.fail(
                     f"step {step}: call #{idx} args={call['args']} kw={call['kw']} script={call.get('script')} "
                     f"gave {got} after history {spec['seq'][:step]} but {fresh[idx]} on a fresh function "
                     f"({out.detail[:200]})",
-                    None,
+                    F5_CYCLE if cyc and ("CycleError" in out.detail or _fresh_cycle.get(idx)) else None,
                 )
                 break
             classes = [(i, v[0], v[1] if v[0] == "inst" else None) for i, v in enumerate(call["args"])]
